@@ -31,10 +31,10 @@ def patch_source(owner, name, old, new, count=1):
         lines = src.splitlines()
         wrapped = 'def __make(__class__):\n' + textwrap.indent(src, '    ') + \
                   f'\n    return {raw.__name__}\n'
-        exec(compile(wrapped, f'<canary {name}>', 'exec'), glb, ns)
+        exec(compile(wrapped, raw.__code__.co_filename, 'exec'), glb, ns)
         new_fn = ns['__make'](owner)
     else:
-        exec(compile(src, f'<canary {name}>', 'exec'), glb, ns)
+        exec(compile(src, raw.__code__.co_filename, 'exec'), glb, ns)
         new_fn = ns[raw.__name__]
     new_fn.__verif_source__ = src
     new_fn.__qualname__ = raw.__qualname__
